@@ -23,10 +23,13 @@ CONSTANTS TermKinds,     \* sequence of <<coefficient kind, vector kind>>: the t
           NonVecKinds,   \* non-vector expressions (must be refused)
           ScalK2, ScalK1, ScalK0,   \* coefficient kinds of the scalar equations k2 x^2 + k1 x + k0 = 0
           RadicalEqs,    \* triples <<p, q, r>> of integers: the radical equations sqrt(p x + q) = x + r
+          Systems,       \* tuples <<a11, a12, c1, a21, a22, c2>>: a11 x + a12 y = c1 t, a21 x + a22 y = c2 t
+                         \* (second row all 0: a single equation in two unknowns)
+          ScalApplyFns,  \* functions applied by `apply` to scalar (non-vector) equations given as bare expressions
           Assigns,
           ShardK, ShardI  \* the enumeration can be split over ShardK TLC processes (by the first term); 1, 0 = all
 
-VARIABLES mode,    \* "start" | "vec" | "nonvec" | "scalar" | "radical"
+VARIABLES mode,    \* "start" | "vec" | "nonvec" | "scalar" | "radical" | "system"
           terms,   \* vec: indices into TermKinds (strictly increasing); nonvec: <<kind>>; scalar: <<k2, k1, k0>>
           fin      \* [done, op, form, reduce, fn]
 
@@ -102,16 +105,33 @@ RECURSIVE SumCoefs(_, _, _)
 SumCoefs(A, ts, S) == IF S = {} THEN IntS(0)
                       ELSE LET ij == CHOOSE q \in S : TRUE IN Add(PartCoef(A, ts, ij), SumCoefs(A, ts, S \ {ij}))
 
-\* the coefficients "of that term": the expression is a sum of terms after expansion, and like terms may be
-\* collected, so any non-empty group of the unknown's expanded terms is a term of the expression, with the sum
-\* of their coefficients
-Divisors(A, ts) == {k \in {SumCoefs(A, ts, S) : S \in (SUBSET UParts(ts)) \ {{}}} : ~IsU(k) /\ ~IsZero(k)}
+\* like terms: monomials of the unknown that differ by a numeric factor only (class <<>>: purely numeric
+\* coefficients) or are the same monomial; a sum of terms always has them collected
+IsNumProg(p) == \A i \in DOMAIN p : p[i][1] \in {"int", "neg", "muls", "pow"}
+ClassOf(p) == IF IsNumProg(p) THEN <<>> ELSE p
+PartClass(ts, ij) == ClassOf(ts[ij[1]][1][ij[2]])
+UClasses(ts) == {PartClass(ts, ij) : ij \in UParts(ts)}
+PartsOfClass(ts, c) == {ij \in UParts(ts) : PartClass(ts, ij) = c}
+\* a class cancels structurally: numeric coefficients summing to 0, the same monomial as often left as right
+ClassVanishes(A, ts, c) ==
+  IF c = <<>> THEN IsZero(SumCoefs(A, ts, PartsOfClass(ts, c)))
+  ELSE Cardinality({ij \in PartsOfClass(ts, c) : ts[ij[1]][3] = "l"})
+       = Cardinality({ij \in PartsOfClass(ts, c) : ts[ij[1]][3] = "r"})
+LiveClasses(A, ts) == {c \in UClasses(ts) : ~ClassVanishes(A, ts, c)}
+PartsOfClasses(ts, S) == UNION {PartsOfClass(ts, c) : c \in S}
 
-\* what must happen: "refuse" (the vector is not a term), "equation", or "open" (the unknown's terms cancel:
-\* the statement does not say whether the vector still occurs)
+\* the coefficients "of that term": the expression is a sum of terms after expansion with like terms collected;
+\* terms with different symbolic coefficients may or may not be collected further, so any non-empty group of the
+\* unknown's collected terms is a term of the expression, with the sum of their coefficients
+Divisors(A, ts) ==
+  {k \in {SumCoefs(A, ts, PartsOfClasses(ts, S)) : S \in (SUBSET LiveClasses(A, ts)) \ {{}}} : ~IsU(k) /\ ~IsZero(k)}
+
+\* what must happen: "refuse" (the vector is not a term, also when its like terms cancel), "equation", or "open"
+\* (the coefficients of different terms of the unknown happen to cancel under this assignment: the statement does
+\* not say whether the vector still occurs)
 Expect(A, ts) ==
-  IF UIdx(ts) = {} THEN "refuse"
-  ELSE LET tot == SumCoefs(A, ts, UParts(ts)) IN
+  IF LiveClasses(A, ts) = {} THEN "refuse"
+  ELSE LET tot == SumCoefs(A, ts, PartsOfClasses(ts, LiveClasses(A, ts))) IN
        IF IsU(tot) \/ IsZero(tot) \/ IsU(ExprVal(A, ts)) THEN "open" ELSE "equation"
 
 \* allowed values of (lhs - rhs) of the returned equation, from the original expression e and the divisors ks
@@ -120,12 +140,31 @@ AllowedOf(e, ks, reduce) ==
   ELSE {e, Neg(e)}
 Allowed(A, ts, reduce) == AllowedOf(ExprVal(A, ts), Divisors(A, ts), reduce)
 
+\* "whenever the vector occurs in no other term the right-hand side is its solution": the unknown has exactly one
+\* collected term and occurs neither inside another vector or coefficient nor in its own coefficient
+HasU(p) == \E i \in DOMAIN p : p[i] = U
+OccursOnce(A, ts) ==
+  /\ Cardinality(LiveClasses(A, ts)) = 1
+  /\ \A i \in DOMAIN ts : /\ \A q \in DOMAIN ts[i][1] : ~HasU(ts[i][1][q])
+                          /\ (~IsUTerm(ts[i]) => ~HasU(ts[i][2]))
+\* the solution  u = -(E - k u) / k
+SolutionOf(A, ts) ==
+  LET k == SumCoefs(A, ts, PartsOfClasses(ts, LiveClasses(A, ts)))
+      rest == Add(ExprVal(A, ts), Neg(Mul(k, LeafVec(A, 1)))) IN
+  Neg(Mul(Inv(k), rest))
+
+\* the library writes the zero vector as the number 0
+SameVal(p, q) == ValOf(p) = ValOf(q) \/ (IsZero(p) /\ IsZero(q))
+
 \* verdict on a returned equation with side values l, r:  "ok" | "bad" | "un"
 SolveVerdict(A, ts, reduce, l, r) ==
   LET d == Add(l, Neg(r))
       al == Allowed(A, ts, reduce) IN
   IF IsU(d) \/ \E v \in al : IsU(v) THEN "un"
-  ELSE IF d \in al THEN "ok" ELSE "bad"
+  ELSE IF d \notin al THEN "bad"
+  ELSE IF reduce /\ OccursOnce(A, ts)
+       THEN (IF IsU(SolutionOf(A, ts)) THEN "un" ELSE IF SameVal(r, SolutionOf(A, ts)) THEN "ok" ELSE "bad")
+  ELSE "ok"
 
 \* functions applied to both sides
 ApplyFn(A, fn, v) ==
@@ -134,14 +173,37 @@ ApplyFn(A, fn, v) ==
     [] fn = "plusu"  -> Add(v, LeafVec(A, 1))
     [] fn = "norm"   -> NormV(v)
     [] fn = "crossb" -> Cross(v, LeafVec(A, 3))
+    [] fn = "lin"    -> Add(Mul(LeafScal(A, 2), v), IntS(1))          \* scalar sides: y s + 1
+    [] fn = "sq"     -> Mul(v, v)                                     \* scalar sides: s^2
 
-\* the library writes the zero vector as the number 0
-SameVal(p, q) == ValOf(p) = ValOf(q) \/ (IsZero(p) /\ IsZero(q))
 ApplyVerdict(A, ts, fn, l, r) ==
   LET el == ApplyFn(A, fn, LhsVal(A, ts))
       er == ApplyFn(A, fn, RhsVal(A, ts)) IN
   IF IsU(el) \/ IsU(er) \/ IsU(l) \/ IsU(r) THEN "un"
   ELSE IF SameVal(l, el) /\ SameVal(r, er) THEN "ok" ELSE "bad"
+
+\* a bare scalar expression e given to `apply` stands for e = 0: the result must be (f(e), f(0))
+ApplyScalarVerdict(A, prog, fn, l, r) ==
+  LET el == ApplyFn(A, fn, Eval(A, prog))
+      er == ApplyFn(A, fn, IntS(0)) IN
+  IF IsU(el) \/ IsU(er) \/ IsU(l) \/ IsU(r) THEN "un"
+  ELSE IF SameVal(l, el) /\ SameVal(r, er) THEN "ok" ELSE "bad"
+
+\* linear system  a11 x + a12 y = c1 t,  a21 x + a22 y = c2 t  and proposed values vx, vy of the unknowns
+\* (an unknown that was not solved for keeps its assigned value)
+SysResidual(A, sys, row, vx, vy) ==
+  LET o == 3 * (row - 1) IN
+  Add(Add(Mul(IntS(sys[o + 1]), vx), Mul(IntS(sys[o + 2]), vy)), Neg(Mul(IntS(sys[o + 3]), LeafScal(A, 3))))
+\* sols: sequence of <<unknown index (1 = x, 2 = y), value program>>: every returned equation
+SolvedVal(A, sols, k) ==
+  IF \E i \in DOMAIN sols : sols[i][1] = k
+  THEN Eval(A, sols[CHOOSE i \in DOMAIN sols : sols[i][1] = k /\ \A j \in 1..(i - 1) : sols[j][1] # k][2])
+  ELSE LeafScal(A, k)
+SystemVerdict(A, sys, sols) ==
+  LET vx == SolvedVal(A, sols, 1)  vy == SolvedVal(A, sols, 2)
+      r1 == SysResidual(A, sys, 1, vx, vy)  r2 == SysResidual(A, sys, 2, vx, vy) IN
+  IF sols = <<>> \/ IsU(r1) \/ IsU(r2) THEN "un"
+  ELSE IF IsZero(ValOf(r1)) /\ IsZero(ValOf(r2)) THEN "ok" ELSE "bad"
 
 \* scalar equation k2 x^2 + k1 x + k0 = 0 and a proposed solution s
 Residual(A, ks, s) ==
@@ -174,18 +236,21 @@ AddTerm(i) ==
   /\ (KindIsU(i) => NU < MaxU)
   /\ mode' = "vec" /\ terms' = Append(terms, i) /\ UNCHANGED fin
 
+\* the forms eqS / eqSS write the equation as  u = ...  and need the term 1*u (kind 1 of TermKinds)
+HasPlainU == terms # <<>> /\ terms[1] = 1 /\ TermKinds[1] = <<"one", "u">>
 FinishSolve(form, reduce) ==
   /\ mode = "vec" /\ ~fin.done
+  /\ (form \in {"eqS", "eqSS"} => HasPlainU)
   /\ fin' = [done |-> TRUE, op |-> "solve", form |-> form, reduce |-> reduce, fn |-> "none"]
   /\ UNCHANGED <<mode, terms>>
 
 FinishApply(form, fn) ==
-  /\ mode = "vec" /\ ~fin.done /\ Len(terms) <= ApplyMaxTerms
+  /\ mode = "vec" /\ ~fin.done /\ Len(terms) <= ApplyMaxTerms /\ form \notin {"eqS", "eqSS"}
   /\ fin' = [done |-> TRUE, op |-> "apply", form |-> form, reduce |-> FALSE, fn |-> fn]
   /\ UNCHANGED <<mode, terms>>
 
 NonVector(kind, form) ==
-  /\ mode = "start" /\ form \in {"expr", "eqL"}
+  /\ mode = "start" /\ form \in {"expr", "eqL", "eqS"}            \* eqS: Eq(u, non-vector expression)
   /\ mode' = "nonvec" /\ terms' = <<kind>>
   /\ fin' = [done |-> TRUE, op |-> "solve", form |-> form, reduce |-> TRUE, fn |-> "none"]
 
@@ -200,7 +265,22 @@ RadicalEq(pqr, form) ==
   /\ mode' = "radical" /\ terms' = pqr
   /\ fin' = [done |-> TRUE, op |-> "solve_radical", form |-> form, reduce |-> FALSE, fn |-> "none"]
 
+\* `apply` on a bare scalar expression (top node dot, norm, sum, symbol) or on Eq(expression, 0)
+ApplyScalar(kind, form, fn) ==
+  /\ mode = "start" /\ form \in {"expr", "eqL"}
+  /\ mode' = "nonvec" /\ terms' = <<kind>>
+  /\ fin' = [done |-> TRUE, op |-> "apply", form |-> form, reduce |-> FALSE, fn |-> fn]
+
+\* a linear system solved for the unknowns listed in req (a sequence over {1 = x, 2 = y})
+SystemEq(sys, req) ==
+  /\ mode = "start"
+  /\ (sys[4] = 0 /\ sys[5] = 0 /\ sys[6] = 0) \/ Len(req) = 2          \* two equations: both unknowns requested
+  /\ mode' = "system" /\ terms' = <<sys, req>>
+  /\ fin' = [done |-> TRUE, op |-> "solve_system", form |-> "eqL", reduce |-> FALSE, fn |-> "none"]
+
 Next == \/ \E pqr \in RadicalEqs, f \in Forms : RadicalEq(pqr, f)
+        \/ \E sys \in Systems, req \in {<<1>>, <<2>>, <<1, 2>>, <<2, 1>>} : SystemEq(sys, req)
+        \/ \E k \in NonVecKinds, f \in Forms, g \in ScalApplyFns : ApplyScalar(k, f, g)
         \/ \E i \in DOMAIN TermKinds : AddTerm(i)
         \/ \E f \in Forms, r \in BOOLEAN : FinishSolve(f, r)
         \/ \E f \in Forms, g \in ApplyFns : FinishApply(f, g)
@@ -217,12 +297,16 @@ InShard == IF mode = "vec" THEN terms[1] % ShardK = ShardI
 \* how an equation is written: which side each term is on
 \*   expr: an expression (all terms left, no Eq)      eqL: Eq(all terms, 0)
 \*   eqU : Eq(terms of the unknown, the others)       eqO: Eq(the others, terms of the unknown)
+\*   eqS : Eq(u, all other terms - also further terms of the unknown)
+\*   eqSS: Eq(u, u + all other terms)   (the unknown cancels unless it has further terms)
 \* (a term written on the right of Eq enters the original expression negated)
 SideOf(form, i) == CASE form \in {"expr", "eqL"} -> "l"
                      [] form = "eqU" -> (IF KindIsU(i) THEN "l" ELSE "r")
                      [] form = "eqO" -> (IF KindIsU(i) THEN "r" ELSE "l")
+                     [] form \in {"eqS", "eqSS"} -> (IF i = 1 THEN "l" ELSE "r")
 TermsAs(form) == [j \in DOMAIN terms |->
                     <<CoefParts(TermKinds[terms[j]][1]), VecProg[TermKinds[terms[j]][2]], SideOf(form, terms[j])>>]
+                 \o (IF form = "eqSS" THEN << <<CoefParts("one"), VecProg["u"], "r">> >> ELSE <<>>)
 Ts == TermsAs(fin.form)
 ScalProgs == <<CoefProg[terms[1]], CoefProg[terms[2]], CoefProg[terms[3]]>>
 RadProgs == << << <<"int", terms[1]>> >>, << <<"int", terms[2]>> >>, << <<"int", terms[3]>> >> >>
@@ -254,22 +338,36 @@ Equivalent == (VecDone /\ fin.op = "solve") => \A i \in 1..NA :
      /\ (fin.reduce => \A d \in al : Def(d) => \E k \in ks : Mul(k, d) = e \/ Mul(k, d) = Neg(e))
 
 \* when the unknown occurs in exactly one term and nowhere else, the right-hand side u = -(E - k u)/k
-\* of the reduced rearrangement is its solution: substituted for u it makes the expression vanish
-OnlyInOneTerm == /\ Cardinality(UIdx(Ts)) = 1
-                 /\ \A j \in DOMAIN terms : TermKinds[terms[j]][2] # "ua" /\ TermKinds[terms[j]][1] # "duu"
-Solution == (VecDone /\ fin.op = "solve" /\ fin.reduce /\ OnlyInOneTerm) => \A i \in 1..NA :
-  LET A == Assigns[i]
-      e == ExprVal(A, Ts)
-      k == SumCoefs(A, Ts, UParts(Ts))
-      rest == Add(e, Neg(Mul(k, LeafVec(A, 1))))              \* E - k u
-      sol == Neg(Mul(Inv(k), rest))                           \* the right-hand side
-  IN  (Def(sol) /\ Def(rest)) =>
-        /\ LET back == Add(Mul(k, sol), rest) IN Def(back) => IsZero(back)
-        /\ SolveVerdict(A, Ts, TRUE, LeafVec(A, 1), sol) \in {"ok", "un"}
+\* of the reduced rearrangement is its solution: substituted for u it makes the expression vanish, the
+\* rearrangement  u = solution  is accepted by the verdict and the trivial  u = u  is not
+Solution == (VecDone /\ fin.op = "solve" /\ fin.reduce) => \A i \in 1..NA :
+  LET A == Assigns[i]  ts == Ts IN
+  (Expect(A, ts) = "equation" /\ OccursOnce(A, ts)) =>
+    LET k == SumCoefs(A, ts, PartsOfClasses(ts, LiveClasses(A, ts)))
+        rest == Add(ExprVal(A, ts), Neg(Mul(k, LeafVec(A, 1))))
+        sol == SolutionOf(A, ts)
+    IN  (Def(sol) /\ Def(rest)) =>
+          /\ LET back == Add(Mul(k, sol), rest) IN Def(back) => IsZero(back)
+          /\ SolveVerdict(A, ts, TRUE, LeafVec(A, 1), sol) \in {"ok", "un"}
+          /\ (~IsZero(ExprVal(A, ts)) => SolveVerdict(A, ts, TRUE, LeafVec(A, 1), LeafVec(A, 1)) \in {"bad", "un"})
 
-\* refusal exactly when the unknown is not a term
+\* refusal when the unknown is not written as a term, and only when its total coefficient is zero
 RefusalRule == (VecDone /\ fin.op = "solve") => \A i \in 1..NA :
-  (Expect(Assigns[i], Ts) = "refuse") <=> (\A j \in DOMAIN terms : ~KindIsU(terms[j]))
+  LET ts == Ts IN
+  /\ (\A j \in DOMAIN ts : ~IsUTerm(ts[j])) => Expect(Assigns[i], ts) = "refuse"
+  /\ (Expect(Assigns[i], ts) = "refuse" /\ UParts(ts) # {}) => IsZero(SumCoefs(Assigns[i], ts, UParts(ts)))
+
+\* every system of the configuration is solved by Cramer's rule in the model, and swapping the two values is not
+\* a solution (so that an answer pairing the unknowns with each other's values is told apart)
+SystemsMeaningful == mode = "system" => \A i \in 1..NA :
+  LET A == Assigns[i]  sys == terms[1]
+      det == sys[1] * sys[5] - sys[2] * sys[4] IN
+  (det # 0) =>
+    LET t == LeafScal(A, 3)
+        vx == Mul(Mul(IntS(sys[3] * sys[5] - sys[2] * sys[6]), Inv(IntS(det))), t)
+        vy == Mul(Mul(IntS(sys[1] * sys[6] - sys[3] * sys[4]), Inv(IntS(det))), t)
+    IN /\ IsZero(SysResidual(A, sys, 1, vx, vy)) /\ IsZero(SysResidual(A, sys, 2, vx, vy))
+       /\ ~(IsZero(SysResidual(A, sys, 1, vy, vx)) /\ IsZero(SysResidual(A, sys, 2, vy, vx)))
 
 \* every radical equation of the configuration has a root in the model (the enumeration is not vacuous) and a
 \* root of the squared equation that is not a root of the equation (what a solver without back-substitution returns)
@@ -278,7 +376,7 @@ RadicalsMeaningful == mode = "radical" => \A i \in 1..NA :
   /\ \E c \in -12..12 : /\ RadicalVerdict(Assigns[i], RadProgs, IntS(c)) = "bad"
                          /\ terms[1] * c + terms[2] = (c + terms[3]) * (c + terms[3])
 
-TypeOK == /\ mode \in {"start", "vec", "nonvec", "scalar", "radical"}
+TypeOK == /\ mode \in {"start", "vec", "nonvec", "scalar", "radical", "system"}
           /\ fin.done \in BOOLEAN
           /\ (mode = "vec" => \A j \in DOMAIN terms : terms[j] \in DOMAIN TermKinds)
 
@@ -288,12 +386,16 @@ ExpectRec(A) ==
   LET ts == Ts IN
   IF fin.op = "apply"
   THEN [kind |-> "apply", al |-> ApplyFn(A, fin.fn, LhsVal(A, ts)), ar |-> ApplyFn(A, fin.fn, RhsVal(A, ts))]
-  ELSE [kind |-> Expect(A, ts), e |-> ExprVal(A, ts), ks |-> Divisors(A, ts)]
+  ELSE [kind |-> Expect(A, ts), e |-> ExprVal(A, ts), ks |-> Divisors(A, ts),
+        sol |-> IF fin.reduce /\ Expect(A, ts) = "equation" /\ OccursOnce(A, ts) THEN SolutionOf(A, ts) ELSE Undef]
+ScalApplyRec(A) ==
+  [kind |-> "apply", al |-> ApplyFn(A, fin.fn, Eval(A, NonVecProg[terms[1]])), ar |-> ApplyFn(A, fin.fn, IntS(0))]
 Emit ==
   fin.done =>
     PrintT(ToJson(
       [mode |-> mode, op |-> fin.op, form |-> fin.form, reduce |-> fin.reduce, fn |-> fin.fn,
        ts |-> IF mode = "vec" THEN Ts ELSE IF mode = "nonvec" THEN <<NonVecProg[terms[1]]>>
-              ELSE IF mode = "radical" THEN RadProgs ELSE ScalProgs,
-       exp |-> IF mode = "vec" THEN [i \in 1..NA |-> ExpectRec(Assigns[i])] ELSE <<>>]))
+              ELSE IF mode = "radical" THEN RadProgs ELSE IF mode = "system" THEN terms ELSE ScalProgs,
+       exp |-> IF mode = "vec" THEN [i \in 1..NA |-> ExpectRec(Assigns[i])]
+               ELSE IF mode = "nonvec" /\ fin.op = "apply" THEN [i \in 1..NA |-> ScalApplyRec(Assigns[i])] ELSE <<>>]))
 =============================================================================
